@@ -396,6 +396,13 @@ def finish(prop, args, seed, t0, results):
                 failures.append((f, r))
     violations = []
     known_hits = []
+    seen = set()
+    uniq = []
+    for f, r in failures:
+        if f["obligation"] in seen:
+            continue
+        seen.add(f["obligation"]); uniq.append((f, r))
+    failures = uniq
     for f, r in failures:
         k = next((k for k in known if k["obligation"] == f["obligation"]), None)
         if k:
